@@ -251,7 +251,8 @@ class CircuitTemplate(AbstractBaseTemplate):
         if edges:
             edges = update_edges(self.edges, edges)
         else:
-            edges = self.edges
+            # ... nor the (mutable) attribute dictionaries of its edges
+            edges = self.edges if in_place else [(s, t, tmpl, dict(attrs)) for s, t, tmpl, attrs in self.edges]
 
         # either create new instance with updates or store updates on current template instance
         if not in_place:
